@@ -31,10 +31,10 @@ def slim(c):
     return {k: c[k] for k in ("v", "stratum", "st", "e", "verdict", "rule")}
 
 
-def random_triples(rep, pid, n):
+def random_triples(rep, pid, n, chunk=0):
     from checks import c08_random
     wd = vlib.workdir(pid)
-    cases = c08_random.generate(vlib.seed(), n)
+    cases = c08_random.generate(vlib.seed() + 7919 * chunk, n)
     cp = os.path.join(wd, "rand_cases.ndjson")
     op = os.path.join(wd, "rand_obs.ndjson")
     vlib.write_ndjson(cp, cases)
@@ -51,7 +51,7 @@ def random_triples(rep, pid, n):
         raise vlib.ToolError("Trace_C08 failed: %s" % res.lines[-20:])
     if res.distinct != len(cases):
         raise vlib.ToolError("Trace_C08 covered %d of %d records" % (res.distinct, len(cases)))
-    rep.add_tlc(res, "randtrace")
+    rep.add_tlc(res, "randtrace%d" % chunk)
     bad = sorted({int(t.split(",")[0]) for t in res.tuples("MISMATCH")})
     unspec = len({int(t.split(",")[0]) for t in res.tuples("UNSPEC")})
     for i in bad:
@@ -60,7 +60,7 @@ def random_triples(rep, pid, n):
         rep.violation("auth/%s" % what, {"v": c["v"], "state": [x["c"] | {"id": x["id"], "type": x["type"], "sender": x["sender"], "key": x["key"]} for x in c["st"]],
                                           "event": c["e"]["c"] | {k: c["e"][k] for k in ("type", "sender", "key", "haskey", "prev", "auth", "idserver")},
                                           "observed": o["out"]})
-    rep.part("randtrace", triples=len(cases), undecided_by_the_specification=unspec, mismatches=len(bad),
+    rep.part("randtrace_summary%d" % chunk, triples=len(cases), undecided_by_the_specification=unspec, mismatches=len(bad),
              allowed=sum(1 for o in obs if o["out"] == "allow"))
     return len(cases), len(cases) - unspec
 
@@ -82,7 +82,12 @@ def run(rep, tier):
         if n == 4242:
             rep.sample({"case": slim(c), "observed": o["out"]})
     # randomised concrete triples on top of the abstraction, judged by TLC (impl -> spec)
-    nr, nd = random_triples(rep, "C08", 150000 if tier == "thorough" else 6000)
+    # TLC reads a whole trace file into memory: chunks of 6000 triples validate in about 15 s each, far larger files do not scale
+    nr = nd = 0
+    for chunk in range(8 if tier == "thorough" else 1):
+        a, b = random_triples(rep, "C08", 6000, chunk)
+        nr += a
+        nd += b
     rep.cov["evaluations"] = n + nr
     rep.cov["distinct_nontrivial"] = nontriv + nd
     rep.cov["traces_validated_against_impl"] = n + nr
